@@ -376,6 +376,17 @@ def summarise(run, dom, body, where='', collect=False, parallel=None):
             r = z3.substitute(r, (i_, at))
         return r
 
+    # lifted lambdas created inside the body: their definitions, generalised over the iteration
+    lifted_defs = []
+    for c in body_consts:
+        d = smt.DEFS.get(str(c))
+        if d is not None:
+            vs, bd = d
+            cf = [t for (cc, t) in subs if z3.eq(cc, c)]
+            if cf:
+                sel = cf[0][vs[0]] if len(vs) == 1 else None
+                if sel is not None:
+                    lifted_defs.append(z3.ForAll([i_] + vs, sel == gen(bd), patterns=[sel]))
     base = len(sti.pc)
     normal = [e for e in ends if e[0] == 'ok']
     raising = [e for e in ends if e[0] == 'raise']
@@ -427,6 +438,8 @@ def summarise(run, dom, body, where='', collect=False, parallel=None):
         `upto` that ran before it raised."""
         full = partial is None
         rng = z3.And(i_ >= 0, i_ < upto)
+        for d in lifted_defs:
+            post.assume(d)
         if len(nguards) > 1 or raising:
             post.assume(z3.ForAll([i_], z3.Implies(rng, z3.Or(*[gen(B) for B, _ in nguards]))))
         for B, A in nguards:
